@@ -338,6 +338,24 @@ Proof.
   split; [exact A|]. destruct (exec_toc os (init T (H stream))) as [Et _]. rewrite Et. reflexivity.
 Qed.
 
+(* a reader cloned onto a new section reader (background fetch, Cache(WithReader)) works with tables decoded from a
+   TOC stream that hashes to the digest of the TOC the layer was opened with - hence, after any successful
+   verification with d anywhere in the history, to d *)
+Lemma clone_pins_toc dec stream s0 os stream' T' :
+  open_layer H dec stream = Some s0 ->
+  clone_layer H dec (exec H s0 os) stream' = Some T' ->
+  H stream' = H stream /\ dec stream' = Some T' /\
+  (forall d o, (o = VerifyTOC d \/ o = LVerify d) -> snd (step H (exec H s0 os) o) = OOk -> H stream' = d) /\
+  ((forall x y, H x = H y -> dec x = dec y) -> T' = s_toc (exec H s0 os)).
+Proof.
+  unfold open_layer, clone_layer. intros Hop Hc. destruct (dec stream) as [T|] eqn:Ed; [|discriminate Hop].
+  inversion Hop; subst s0. destruct (exec_toc os (init T (H stream))) as [Et Etd]. simpl in Et, Etd.
+  rewrite Etd in Hc. destruct (H stream' =? H stream)%N eqn:Eh; [|discriminate Hc]. apply N.eqb_eq in Eh.
+  split; [exact Eh|]. split; [exact Hc|]. split.
+  - intros d o Ho Hr. destruct (mount_pins_toc T (H stream) os d o Ho Hr) as [A _]. congruence.
+  - intros Hinj. rewrite Et. specialize (Hinj _ _ Eh). congruence.
+Qed.
+
 (* sticky error: once a prefetch recorded a verification failure, no verification can succeed any more *)
 Lemma sticky s os d o : (o = VerifyTOC d \/ o = LVerify d) -> s_lasterr s = true -> snd (step H (exec H s os) o) = OErr.
 Proof.
@@ -594,12 +612,14 @@ Qed.
 Lemma hstep_steps s h : steps s (fst (hstep H s h)).
 Proof.
   destruct h; unfold hstep.
-  1-4, 10: match goal with
+  1-4, 11: match goal with
           | |- context [step H ?s0 ?o] => pose proof (steps_one s0 o) as X; destruct (step H s0 o) as [s1 r]; exact X
           end.
   - pose proof (prefetch_chunk_steps s f i ft) as X. destruct (prefetch_chunk H s f i ft). exact X.
   - pose proof (cache_all_steps l s OOk) as X. destruct (cache_all H s l OOk). exact X.
   - pose proof (read_at_steps s f off len fs) as X. destruct (read_at H s f off len fs). exact X.
+  - destruct (d' =? s_tocd s)%N; [|apply steps_refl].
+    pose proof (cache_all_steps l s OOk) as X. destruct (cache_all H s l OOk). exact X.
   - apply steps_refl.
   - pose proof (pass_fd_steps s f buf fts) as X. destruct (pass_fd H s f buf fts). exact X.
 Qed.
